@@ -31,6 +31,7 @@ CONFIG = {
     "invocations": 0,
     "probe": None,
     "emcee_seed": None,
+    "int_draws": False,
 }
 
 
@@ -41,7 +42,7 @@ class HorizonExceeded(Exception):
 def reset(**kw):
     CONFIG.update(
         mode="prw", h=0.5, scale=0.3, ctx=None, teleport=None, records=None,
-        horizon=None, invocations=0, probe=None, emcee_seed=None,
+        horizon=None, invocations=0, probe=None, emcee_seed=None, int_draws=False,
     )
     CONFIG.update(kw)
 
@@ -104,6 +105,11 @@ def run_kernel(log_prob_fn, z0, n_steps, rng=None, numpy_io=False):
 
     lp = logp(z)
     ctx = getattr(rng, "ctx", None) or CONFIG["ctx"]
+    stretch = 1.0
+    if CONFIG["int_draws"] and mode == "prw":
+        # one bounded-integer draw per invocation (as a kernel that picks a partner particle or a move type does): NumPy
+        # serves it from a 32-bit half-word and keeps the other half buffered in the generator's state
+        stretch = 1.0 + 0.25 * int(rng.integers(0, 4))
     for step in range(int(n_steps)):
         if mode == "lattice":
             h = CONFIG["h"]
@@ -113,7 +119,7 @@ def run_kernel(log_prob_fn, z0, n_steps, rng=None, numpy_io=False):
                 hk = h[m // 2] if np.ndim(h) else h
                 prop[i, m // 2] += hk if m % 2 == 0 else -hk
         elif mode == "prw":
-            prop = z + CONFIG["scale"] * np.asarray(rng.normal(size=z.shape), dtype=np.float64)
+            prop = z + stretch * CONFIG["scale"] * np.asarray(rng.normal(size=z.shape), dtype=np.float64)
         elif mode == "det":
             prop = z.copy()
             for i in range(n):
